@@ -12,7 +12,9 @@
 //           P            ForwardPropagator()(graph)
 //           x <e> <t>    execute: e = 0 SingleThreadExecutor, 1 ParallelForExecutor(TaskSet), 2 ConcurrentTaskSetExecutor,
 //                        3 ParallelForExecutor(ConcurrentTaskSet); t = threads of a fresh ThreadPool
-//           S            dump the structure
+//           E <a>        run the case's single-thread executor with node a throwing; catch; setAllNodesIncomplete
+//           F <e> <t> <a>  the same with the case's parallel executor e (1..3) on a fresh t-thread pool
+//           S            dump the structure       (executor and propagator objects are per CASE, so every later run reuses them)
 // output:   segments joined by " | ", in op order:
 //           x ->  "X <e> <t> id:start:finish ..."  (records sorted by start sequence number)  followed by
 //                 "C id:cnt ..."   (all live nodes in forEachNode order; cnt printed as signed: kCompleted = -1)
@@ -127,6 +129,9 @@ static void runCase(std::istringstream& in, std::ostream& os) {
   using N = typename G::NodeType;
   G g;
   dispenso::SingleThreadExecutor stEx;   // ONE executor object for all single-thread runs of the case (op x 0 and op E): executors are reusable
+  dispenso::ParallelForExecutor pfEx;    // likewise ONE object per case for x 1 / x 3 / F 1 / F 3 (its wave vectors survive an aborted run)
+  dispenso::ConcurrentTaskSetExecutor ctsEx;  // and for x 2 / F 2
+  dispenso::ForwardPropagator fpEx;      // and ONE propagator for every op P of the case (its work lists and group set persist)
   std::vector<std::vector<int>> sgIds(1);
   std::map<int, N*> ptr;
   std::map<const dispenso::Node*, int> idOf;
@@ -184,6 +189,30 @@ static void runCase(std::istringstream& in, std::ostream& os) {
       }
       g_throwId.store(0);
       setAllNodesIncomplete(g);
+    } else if (op == "F") {
+      // the same with a (reused) parallel executor: F <e> <t> <a>, e as in op x (1..3).  The task set records the exception, lets the
+      // other tasks finish and rethrows from its wait; the executor object is left mid-run (wave vectors not consumed)
+      int e, t, a;
+      in >> e >> t >> a;
+      g_throwId.store(a);
+      {
+        dispenso::ThreadPool pool(static_cast<size_t>(t));
+        try {
+          if (e == 1) {
+            dispenso::TaskSet ts(pool);
+            pfEx(ts, g);
+          } else if (e == 2) {
+            dispenso::ConcurrentTaskSet ts(pool);
+            ctsEx(ts, g);
+          } else {
+            dispenso::ConcurrentTaskSet ts(pool);
+            pfEx(ts, g);
+          }
+        } catch (const std::runtime_error&) {
+        }
+      }
+      g_throwId.store(0);
+      setAllNodesIncomplete(g);
     } else if (op == "A") {
       setAllNodesIncomplete(g);  // declared only as a friend of Node: found by ADL
     } else if (op == "i") {
@@ -195,8 +224,7 @@ static void runCase(std::istringstream& in, std::ostream& os) {
       in >> a;
       ptr.at(a)->setCompleted();
     } else if (op == "P") {
-      dispenso::ForwardPropagator fp;
-      fp(g);
+      fpEx(g);
     } else if (op == "x") {
       int e, t;
       in >> e >> t;
@@ -211,16 +239,13 @@ static void runCase(std::istringstream& in, std::ostream& os) {
         dispenso::ThreadPool pool(static_cast<size_t>(t));
         if (e == 1) {
           dispenso::TaskSet ts(pool);
-          dispenso::ParallelForExecutor ex;
-          ex(ts, g);
+          pfEx(ts, g);
         } else if (e == 2) {
           dispenso::ConcurrentTaskSet ts(pool);
-          dispenso::ConcurrentTaskSetExecutor ex;
-          ex(ts, g);
+          ctsEx(ts, g);
         } else {
           dispenso::ConcurrentTaskSet ts(pool);
-          dispenso::ParallelForExecutor ex;
-          ex(ts, g);
+          pfEx(ts, g);
         }
       }
       std::vector<Rec> recs;
